@@ -123,6 +123,13 @@ def handleIntMat : Handler
     let p ← parseNat p; let m ← parseMat64 m
     if p ≥ 2 ^ 64 then none
     else some (pn (detModPlain inv64 p { p := p, indices := [], basis := [], factors := [] } m))
+  | ["im_ech_raw", p, ind, basis, fac, row] => do
+    let p ← parseNat p; let ind ← parseNatList ind; let fac ← parseU64List fac; let row ← parseIntList row
+    let basis ← (if basis = "-" then some [] else (basis.splitOn ";").mapM parseU64List)
+    if p ≥ 2 ^ 64 ∨ !(row.all inI64) ∨ ind.any (· ≥ 2 ^ 64) then none
+    else some (match (Ech.new p).bind (fun e => ({ e with indices := ind, basis := basis, factors := fac } : Ech).add inv64 row) with
+      | none => "panic"
+      | some (e, b) => s!"{if b then 1 else 0} {showList e.indices} {showMat e.basis} {showList e.factors}")
   | ["im_detp", p, m] => do
     let p ← parseNat p; let m ← parseMat64 m
     if p ≥ 2 ^ 64 then none else some (pn (detModP inv64 p m))
